@@ -468,7 +468,7 @@ func init() {
 				noWrites(c, fr, fn, nil, "its receiver and arguments")
 			}
 			tri := ruleTriX(c, inFiles("graph_dense.go"), "TRI", true)
-			tri.MinInst = 10
+			tri.MinInst = 5
 			return []*RuleResult{cp, fr, tri, ruleRows(c)}
 		},
 		controls: func(ctl *Ctx) []*RuleResult {
@@ -497,7 +497,7 @@ func init() {
 			noWrites(c, fr, nd, nil, "its arguments")
 			noWrites(c, fr, ns, nil, "its arguments")
 			tri := ruleTri(c, func(file string) bool { return filepath.Base(file) != "graph_dense.go" }, "TRI")
-			tri.MinInst = 20
+			tri.MinInst = 8
 			own := ruleOwner(c, "graph", "SparseGraph", []string{"(*graph.SparseGraph).AddVertex", "(*graph.SparseGraph).RemoveVertex", "(*graph.SparseGraph).AddEdge", "(*graph.SparseGraph).RemoveEdge"})
 			own.MinInst = 4
 			return []*RuleResult{fr, ruleLiteral(c), tri, own, ruleCtorClass(c)}
